@@ -358,16 +358,3 @@ pub fn first_diff(a: &Value, b: &Value, path: &str) -> Option<(String, Value, Va
     }
 }
 
-/// strip numeric path components so that a diff path becomes a class
-pub fn path_class(path: &str) -> String {
-    path.split('/')
-        .map(|c| {
-            if !c.is_empty() && c.chars().all(|ch| ch.is_ascii_digit()) {
-                "*"
-            } else {
-                c
-            }
-        })
-        .collect::<Vec<_>>()
-        .join("/")
-}
